@@ -2137,10 +2137,19 @@ def shrink_import(doc, loader, clauses, fname="shrink", fails=None):
 def register_matchers(ctx):
     # C19-K1: kern ties whose notes are chord members are not joined (importkern.py documents
     # "Case of note to chord tie or chord to note tie is not handled yet"; chord members are parsed with add=False)
+    def _hist_k1(r):
+        # the same finding met by the history stream: the failing operation is the LOAD of a kern document that holds a
+        # tied chord, and only the tie clauses fail (gen_history draws its documents with DEFAULT_W's kern_chord_tie = 0.02)
+        op = r.get("failing_op") or []
+        if r.get("dir") != "history" or len(op) < 2 or op[0] != "load" or not isinstance(op[1], int) or not 0 <= op[1] < len(r.get("docs", [])):
+            return False
+        d = r["docs"][op[1]]
+        return (d.get("fmt") == "kern" and set(r.get("clauses", [])) <= {"ties", "note_array"} and bool(r.get("clauses"))
+                and has_tied_chord(d))
     ctx.matchers["C19-K1"] = lambda r: (
-        r.get("dir") == "import" and r.get("doc", {}).get("fmt") == "kern"
-        and set(r.get("clauses", [])) <= {"ties", "note_array"} and bool(r.get("clauses"))
-        and has_tied_chord(r["doc"]))
+        (r.get("dir") == "import" and r.get("doc", {}).get("fmt") == "kern"
+         and set(r.get("clauses", [])) <= {"ties", "note_array"} and bool(r.get("clauses"))
+         and has_tied_chord(r["doc"])) or _hist_k1(r))
     # C19-K3: save_kern writes a grace note into the token of the note it precedes (a chord), and marks acciaccaturas
     # with 'p', which load_kern does not read as a grace note
     ctx.matchers["C19-K3"] = lambda r: (
